@@ -1,143 +1,25 @@
-(* Transform (rolling 16-word window, rotating register file) = FIPS 180-4 compress.
-   One symbolic round per (phase j, index i), then induction over the two nested folds. *)
-From Coq Require Import ZArith List Lia Arith Setoid Morphisms.
+(* Transform (rolling 16-word window, rotating register file) = FIPS 180-4 compress:
+   induction over the two nested folds on top of the one-round lemmas of ShaRound.v, then the
+   message schedule of the spec is shown to satisfy the window recurrence. *)
+From Coq Require Import ZArith List Lia Arith.
 From Common Require Import Words ListAux.
-From Sha Require Import Gen_Sha ShaSpec ShaModel.
+From Sha Require Import Gen_Sha ShaSpec ShaModel ShaProofs ShaRound.
 Import ListNotations.
 Local Open Scope Z_scope.
 
-(* ---- bitwise identities between the macros and FIPS 4.1.2 -------------------------------- *)
-Lemma mCh_Ch x y z : mCh x y z = Ch x y z.
-Proof.
-  unfold mCh, Ch. apply Z.bits_inj'. intros n Hn.
-  rewrite !Z.lxor_spec, !Z.land_spec, Z.ldiff_spec, Z.lxor_spec.
-  destruct (Z.testbit x n), (Z.testbit y n), (Z.testbit z n); reflexivity.
-Qed.
+(* one phase (16 rounds) of Transform, kept folded *)
+Definition phaseF (data : list Z) (j : nat) (st : list Z * list Z) : list Z * list Z :=
+  fold_left (fun st i => R j i data st) (seq 0 16) st.
 
-Lemma mMaj_Maj x y z : mMaj x y z = Maj x y z.
-Proof.
-  unfold mMaj, Maj. apply Z.bits_inj'. intros n Hn.
-  rewrite !Z.lxor_spec, !Z.lor_spec, !Z.land_spec, Z.lor_spec.
-  destruct (Z.testbit x n), (Z.testbit y n), (Z.testbit z n); reflexivity.
-Qed.
-
-(* ---- normalising nested add32: congruence modulo 2^32 ------------------------------------ *)
-Definition eqm (a b : Z) : Prop := w32 a = w32 b.
-#[global] Instance eqm_equiv : Equivalence eqm.
-Proof. split; unfold eqm; [intros x | intros x y H | intros x y z H1 H2]; congruence. Qed.
-#[global] Instance add_eqm : Proper (eqm ==> eqm ==> eqm) Z.add.
-Proof.
-  intros a a' Ha b b' Hb. unfold eqm, w32 in *.
-  rewrite Zplus_mod, Ha, Hb, <- Zplus_mod. reflexivity.
-Qed.
-#[global] Instance w32_eqm_proper : Proper (eqm ==> eq) w32.
-Proof. intros a b H. exact H. Qed.
-Lemma w32_eqm x : eqm (w32 x) x.
-Proof. unfold eqm. apply w32_idem. Qed.
-
-Ltac add32_norm :=
-  unfold add32;
-  match goal with |- w32 ?A = w32 ?B => change (eqm A B) end;
-  rewrite ?w32_eqm; unfold eqm; f_equal; ring.
-
-(* ---- the register file and the window as functions of the round index ----------------------- *)
-(* register k of the FIPS working variables lives in T[(k - i) & 7] *)
-Definition place (i : nat) (r : list Z) : list Z :=
-  map (fun p => nth ((p + i) mod 8) r 0) (seq 0 8).
-
-(* window: slots below i already hold this phase's words (fn), the others last phase's (gn) *)
-Definition mixf (i : nat) (fn gn : nat -> Z) : list Z :=
-  map (fun k => if Nat.ltb k i then fn k else gn k) (seq 0 16).
-
-Definition sel (fn gn : nat -> Z) (i d : nat) : Z :=
-  if Nat.leb d i then fn (i - d)%nat else gn (i + 16 - d)%nat.
-
-Ltac list_eq :=
-  repeat match goal with
-         | |- (_, _) = (_, _) => apply f_equal2
-         | |- _ :: _ = _ :: _ => apply f_equal2
-         | |- @nil _ = @nil _ => reflexivity
-         end.
-
-Ltac crunch :=
-  cbv beta iota zeta delta
-    [R place mixf sel tix wix upd nthz nth map seq fst snd round
-     Nat.eqb Nat.ltb Nat.leb Nat.add Nat.sub Nat.modulo Nat.divmod Nat.mul].
-Ltac crunch_in H :=
-  cbv beta iota zeta delta
-    [R place mixf sel tix wix upd nthz nth map seq fst snd round
-     Nat.eqb Nat.ltb Nat.leb Nat.add Nat.sub Nat.modulo Nat.divmod Nat.mul] in H.
-
-Lemma R_step_first : forall i, (i < 16)%nat ->
-  forall a b c d e f g h (fn gn : nat -> Z) (data : list Z),
-  fn i = nthz data i ->
-  R 0 i data (place i [a; b; c; d; e; f; g; h], mixf i fn gn)
-  = (place (S i) (round [a; b; c; d; e; f; g; h] (nthz gen_K (i + 0), fn i)), mixf (S i) fn gn).
-Proof.
-  intros i Hi a b c d e f g h fn gn data Hd.
-  do 16 (destruct i as [|i]; [ crunch; crunch_in Hd; rewrite <- Hd;
-                               rewrite ?mCh_Ch, ?mMaj_Maj; unfold mS0, mS1, BSig0, BSig1;
-                               list_eq; try reflexivity; add32_norm | ]).
-  exfalso; lia.
-Qed.
-
-Lemma R_step_later : forall j i, j <> O -> (i < 16)%nat ->
-  forall a b c d e f g h (fn gn : nat -> Z) (data : list Z),
-  fn i = add32 (add32 (add32 (SSig1 (sel fn gn i 2)) (sel fn gn i 7)) (SSig0 (sel fn gn i 15))) (gn i) ->
-  R j i data (place i [a; b; c; d; e; f; g; h], mixf i fn gn)
-  = (place (S i) (round [a; b; c; d; e; f; g; h] (nthz gen_K (i + j), fn i)), mixf (S i) fn gn).
-Proof.
-  intros j i Hj Hi a b c d e f g h fn gn data Hd.
-  unfold R. replace (Nat.eqb j 0) with false by (symmetry; apply Nat.eqb_neq; exact Hj).
-  do 16 (destruct i as [|i]; [ crunch; crunch_in Hd; rewrite Hd;
-                               rewrite ?mCh_Ch, ?mMaj_Maj; unfold mS0, mS1, ms0, ms1, BSig0, BSig1, SSig0, SSig1;
-                               list_eq; try reflexivity; add32_norm | ]).
-  exfalso; lia.
-Qed.
-
-(* ---- eight-element register lists ------------------------------------------------------------ *)
-Definition is8 (r : list Z) : Prop := exists a b c d e f g h, r = [a; b; c; d; e; f; g; h].
-
-Lemma round_is8 r kw : is8 r -> is8 (round r kw).
-Proof. intros (a & b & c & d & e & f & g & h & ->). cbn [round]. repeat eexists. Qed.
-
-Lemma fold_round_is8 l r : is8 r -> is8 (fold_left round l r).
-Proof. revert r; induction l as [|x l IH]; intros r H; cbn [fold_left]; auto using round_is8. Qed.
-
-Lemma place_0 r : is8 r -> place 0 r = r.
-Proof. intros (a & b & c & d & e & f & g & h & ->). reflexivity. Qed.
-Lemma place_16 r : is8 r -> place 16 r = r.
-Proof. intros (a & b & c & d & e & f & g & h & ->). reflexivity. Qed.
-Lemma mixf_0 f g : mixf 0 f g = map g (seq 0 16).
-Proof. reflexivity. Qed.
-Lemma mixf_16 f g : mixf 16 f g = map f (seq 0 16).
+Lemma fold_left4 {A B} (f : A -> B -> A) a b c d x :
+  fold_left f [a; b; c; d] x = f (f (f (f x a) b) c) d.
 Proof. reflexivity. Qed.
 
-(* what the window must satisfy at step i of phase j *)
-Definition stepok (j i : nat) (fn gn : nat -> Z) (data : list Z) : Prop :=
-  match j with
-  | O => fn i = nthz data i
-  | S _ => fn i = add32 (add32 (add32 (SSig1 (sel fn gn i 2)) (sel fn gn i 7)) (SSig0 (sel fn gn i 15))) (gn i)
-  end.
-
-Lemma R_step j i r fn gn data : (i < 16)%nat -> is8 r -> stepok j i fn gn data ->
-  R j i data (place i r, mixf i fn gn)
-  = (place (S i) (round r (nthz gen_K (i + j), fn i)), mixf (S i) fn gn).
+Lemma Transform_unfold st data :
+  Transform st data
+  = add_lists st (fst (phaseF data 48 (phaseF data 32 (phaseF data 16 (phaseF data 0 (st, repeat 0 16)))))).
 Proof.
-  intros Hi (a & b & c & d & e & f & g & h & ->) Hok. destruct j as [|j].
-  - apply R_step_first; assumption.
-  - apply R_step_later; try assumption. discriminate.
-Qed.
-
-Lemma inner_fold j fn gn data : forall n i r, (i + n = 16)%nat -> is8 r ->
-  (forall k, (i <= k < 16)%nat -> stepok j k fn gn data) ->
-  fold_left (fun st i => R j i data st) (seq i n) (place i r, mixf i fn gn)
-  = (place 16 (fold_left round (map (fun k => (nthz gen_K (k + j), fn k)) (seq i n)) r), mixf 16 fn gn).
-Proof.
-  induction n as [|n IH]; intros i r Hin Hr Hok.
-  - replace i with 16%nat by lia. reflexivity.
-  - cbn [seq fold_left map]. rewrite R_step; [ | lia | exact Hr | apply Hok; lia ].
-    apply IH; [ lia | apply round_is8; exact Hr | intros k Hk; apply Hok; lia ].
+  unfold Transform. rewrite fold_left4. cbv beta. unfold phaseF. reflexivity.
 Qed.
 
 Section Block.
@@ -165,10 +47,9 @@ Section Block.
 
   Lemma phase_gen j r gn : (j = 0 \/ j = 16 \/ j = 32 \/ j = 48)%nat -> is8 r ->
     (j <> 0%nat -> gn = wold j) ->
-    fold_left (fun st i => R j i data st) (seq 0 16) (r, mixf 0 (wnew j) gn)
-    = (fold_left round (kws j) r, map (wnew j) (seq 0 16)).
+    phaseF data j (r, mixf 0 (wnew j) gn) = (fold_left round (kws j) r, map (wnew j) (seq 0 16)).
   Proof.
-    intros Hj Hr Hgn.
+    intros Hj Hr Hgn. unfold phaseF.
     rewrite <- (place_0 r Hr) at 1.
     rewrite (inner_fold j (wnew j) gn data 16 0 r); [ | reflexivity | exact Hr | ].
     - rewrite place_16 by (apply fold_round_is8; exact Hr). rewrite mixf_16. reflexivity.
@@ -178,8 +59,7 @@ Section Block.
   Qed.
 
   Lemma phase_first r w : is8 r -> length w = 16%nat ->
-    fold_left (fun st i => R 0 i data st) (seq 0 16) (r, w)
-    = (fold_left round (kws 0) r, map (wnew 0) (seq 0 16)).
+    phaseF data 0 (r, w) = (fold_left round (kws 0) r, map (wnew 0) (seq 0 16)).
   Proof.
     intros Hr Hl.
     assert (w = mixf 0 (wnew 0) (fun k => nth k w 0)) as ->.
@@ -187,31 +67,92 @@ Section Block.
     apply phase_gen; [ lia | exact Hr | intros H; exfalso; apply H; reflexivity ].
   Qed.
 
-  Lemma phase_later j r : (j = 16 \/ j = 32 \/ j = 48)%nat -> is8 r ->
-    fold_left (fun st i => R j i data st) (seq 0 16) (r, map (wold j) (seq 0 16))
+  Lemma phase_later j jp r : j = (jp + 16)%nat -> (j = 16 \/ j = 32 \/ j = 48)%nat -> is8 r ->
+    phaseF data j (r, map (wnew jp) (seq 0 16))
     = (fold_left round (kws j) r, map (wnew j) (seq 0 16)).
   Proof.
-    intros Hj Hr. rewrite <- (mixf_0 (wnew j) (wold j)).
-    apply phase_gen; [ lia | exact Hr | reflexivity ].
+    intros Ej Hj Hr.
+    replace (map (wnew jp) (seq 0 16)) with (mixf 0 (wnew j) (wold j)).
+    - apply phase_gen; [ lia | exact Hr | reflexivity ].
+    - rewrite mixf_0. apply map_ext. intros k. unfold wold, wnew. f_equal. lia.
   Qed.
-
-  Lemma wold_wnew j : (16 <= j)%nat -> map (wold j) (seq 0 16) = map (wnew (j - 16)) (seq 0 16).
-  Proof. intros Hj. apply map_ext. intros k. unfold wold, wnew. reflexivity. Qed.
 
   Lemma Transform_rounds st : is8 st ->
     Transform st data = add_lists st (fold_left round (kws 0 ++ kws 16 ++ kws 32 ++ kws 48) st).
   Proof.
-    intros Hst. unfold Transform. cbn [fold_left].
-    rewrite phase_first; [ | exact Hst | reflexivity ].
-    change (map (wnew 0) (seq 0 16)) with (map (wnew (16 - 16)) (seq 0 16)).
-    rewrite <- (wold_wnew 16) by lia.
-    rewrite phase_later; [ | lia | apply fold_round_is8; exact Hst ].
-    change (map (wnew 16) (seq 0 16)) with (map (wnew (32 - 16)) (seq 0 16)).
-    rewrite <- (wold_wnew 32) by lia.
-    rewrite phase_later; [ | lia | repeat apply fold_round_is8; exact Hst ].
-    change (map (wnew 32) (seq 0 16)) with (map (wnew (48 - 16)) (seq 0 16)).
-    rewrite <- (wold_wnew 48) by lia.
-    rewrite phase_later; [ | lia | repeat apply fold_round_is8; exact Hst ].
+    intros Hst. rewrite Transform_unfold.
+    rewrite (phase_first st (repeat 0 16) Hst eq_refl).
+    rewrite (phase_later 16 0 (fold_left round (kws 0) st));
+      [ | reflexivity | lia | apply fold_round_is8; exact Hst ].
+    rewrite (phase_later 32 16 (fold_left round (kws 16) (fold_left round (kws 0) st)));
+      [ | reflexivity | lia | repeat apply fold_round_is8; exact Hst ].
+    rewrite (phase_later 48 32 (fold_left round (kws 32) (fold_left round (kws 16) (fold_left round (kws 0) st))));
+      [ | reflexivity | lia | repeat apply fold_round_is8; exact Hst ].
     cbn [fst]. rewrite !fold_left_app. reflexivity.
   Qed.
 End Block.
+
+(* ---- the spec's message schedule satisfies the window recurrence --------------------------- *)
+Lemma schedule_ext_length n W : length (schedule_ext n W) = (length W + n)%nat.
+Proof.
+  revert W; induction n as [|n IH]; intros W; cbn [schedule_ext]; [ lia | ].
+  rewrite IH, app_length. cbn [length]. lia.
+Qed.
+
+Lemma schedule_ext_prefix n W i : (i < length W)%nat -> nth i (schedule_ext n W) 0 = nth i W 0.
+Proof.
+  revert W; induction n as [|n IH]; intros W Hi; cbn [schedule_ext]; [ reflexivity | ].
+  rewrite IH by (rewrite app_length; cbn [length]; lia). apply app_nth1. exact Hi.
+Qed.
+
+Definition sched_rec (S : list Z) (t : nat) : Prop :=
+  nth t S 0 = add32 (add32 (add32 (SSig1 (nth (t - 2) S 0)) (nth (t - 7) S 0))
+                           (SSig0 (nth (t - 15) S 0))) (nth (t - 16) S 0).
+
+Lemma schedule_ext_rec n W t : (16 <= length W)%nat -> (length W <= t < length W + n)%nat ->
+  sched_rec (schedule_ext n W) t.
+Proof.
+  revert W; induction n as [|n IH]; intros W HW Ht; [ lia | ]. cbn [schedule_ext].
+  destruct (Nat.eq_dec t (length W)) as [->|Hne].
+  - unfold sched_rec. rewrite !schedule_ext_prefix by (rewrite app_length; cbn [length]; lia).
+    rewrite (app_nth2 W _ 0 (le_n (length W))). rewrite Nat.sub_diag. cbn [nth].
+    rewrite !app_nth1 by lia. unfold nthw. reflexivity.
+  - apply IH; rewrite app_length; cbn [length]; lia.
+Qed.
+
+Lemma schedule_length M : length M = 16%nat -> length (schedule M) = 64%nat.
+Proof. intros H. unfold schedule. rewrite schedule_ext_length, firstn_all2 by lia. lia. Qed.
+
+Lemma combine_nth_seq (K S : list Z) : forall n, length K = n -> length S = n ->
+  combine K S = map (fun t => (nth t K 0, nth t S 0)) (seq 0 n).
+Proof.
+  revert S; induction K as [|k K IH]; intros S n HK HS; destruct S as [|s S]; destruct n as [|n];
+    try discriminate; cbn [combine seq map nth]; [ reflexivity | ].
+  f_equal. rewrite <- seq_shift, map_map. cbn [nth]. apply IH; cbn [length] in *; lia.
+Qed.
+
+Lemma kws_seq sched :
+  kws sched 0 ++ kws sched 16 ++ kws sched 32 ++ kws sched 48
+  = map (fun t => (nth t gen_K 0, nth t sched 0)) (seq 0 64).
+Proof. cbv [kws wnew nthz map seq app Nat.add]. reflexivity. Qed.
+
+Lemma add_lists_map2 a b : add_lists a b = map2 add32 a b.
+Proof. revert b; induction a as [|x a IH]; intros [|y b]; cbn [add_lists map2]; try reflexivity. f_equal. apply IH. Qed.
+
+Lemma Transform_compress st data : is8 st -> length data = 16%nat ->
+  Transform st data = compress st data.
+Proof.
+  intros Hst Hlen. unfold compress. rewrite <- add_lists_map2.
+  rewrite (Transform_rounds data (schedule data)); [ | | | exact Hst ].
+  - rewrite kws_seq, gen_K_is_fips.
+    rewrite <- (combine_nth_seq fips_K (schedule data) 64 eq_refl (schedule_length data Hlen)). reflexivity.
+  - intros i Hi. unfold schedule. rewrite firstn_all2 by lia. apply schedule_ext_prefix. lia.
+  - intros t Ht. unfold schedule. rewrite firstn_all2 by lia. apply schedule_ext_rec; lia.
+Qed.
+
+Lemma compress_is8 st data : is8 st -> is8 (compress st data).
+Proof.
+  intros Hst. unfold compress.
+  pose proof (fold_round_is8 (combine fips_K (schedule data)) st Hst) as (a & b & c & d & e & f & g & h & ->).
+  destruct Hst as (a' & b' & c' & d' & e' & f' & g' & h' & ->). cbn [map2]. repeat eexists.
+Qed.
